@@ -94,8 +94,8 @@ OPS = {
             _one("max", COMMON + ["0", "4", "5", "-2", "False", "-10**400"])),
     "float": (_one("call", COMMON + ["0.0", "-0.0", "2.5", "1", "float('-inf')"]) +
               # incl. bounds that differ only below a declared precision (1.24 / 1.2 at precision 1)
-              _one("min", COMMON + ["0.0", "2.5", "3.5", "float('-inf')", "0", "2.5000000001", "1.24", "0.04"]) +
-              _one("max", COMMON + ["0.0", "2.5", "-0.5", "float('-inf')", "3", "1.2", "1.25"]) +
+              _one("min", COMMON + ["0.0", "2.5", "3.5", "float('-inf')", "0", "2.5000000001", "1.24", "0.04", "10**400"]) +
+              _one("max", COMMON + ["0.0", "2.5", "-0.5", "float('-inf')", "3", "1.2", "1.25", "-10**400"]) +
               _one("precision", COMMON + ["0", "1", "2", "15", "16", "False"])),
     "str": (_one("call", COMMON + ["''", "'banana'", "'ab'"]) +
             _one("alphabet", COMMON + ["''", "'abn'", "'ab'", "'xabn'"]) +
